@@ -7,12 +7,13 @@
 EXTENDS MemMap, Json
 
 Trace == ndJsonDeserialize("pages.ndjson")
-ASSUME Len(Trace) = 10 * NPages
+NTables == Len(Trace) \div NPages        \* 10, or 8 when the emulator.System tables were not recorded
+ASSUME Len(Trace) \in {8 * NPages, 10 * NPages}
 ASSUME \A i \in 1..Len(Trace) : Trace[i].t = (i - 1) \div NPages /\ Trace[i].page = (i - 1) % NPages
 
 VARIABLES t, pg
 vars == <<t, pg>>
-Init == t \in 0..9 /\ pg \in 0..(NPages - 1)
+Init == t \in 0..(NTables - 1) /\ pg \in 0..(NPages - 1)
 Next == UNCHANGED vars
 Spec == Init /\ [][Next]_vars
 
